@@ -371,6 +371,9 @@ func cmdCheck(args []string) int {
 			fmt.Printf("  slow symbolic execution: %s %.1fs (%d paths)\n", k, d.Seconds(), ex.paths)
 		}
 	}
+	if P == "C15" || P == "ALL" {
+		ex.objinvStability()
+	}
 	// lemmas
 	for _, lm := range specs.Lemmas {
 		has := false
@@ -499,10 +502,14 @@ func cmdCheck(args []string) int {
 			if open[n] {
 				status = "known-finding"
 				what := n
+				best := ""
 				for _, f := range findings {
-					if f.Obligation == n && f.Status == "open" {
-						what = n + " -- " + f.What
+					if f.Obligation == n && f.Status == "open" && (best == "" || f.Property == P) {
+						best = f.What
 					}
+				}
+				if best != "" {
+					what = n + " -- " + best
 				}
 				knownLines = append(knownLines, fmt.Sprintf("KNOWN-FINDING: property=%s %s", P, what))
 			} else {
@@ -1507,6 +1514,49 @@ func (ex *Exec) resultObjInvs(st *State, fr *Frame, key string, ret Val, prove b
 				ex.oblige(st, "objinv", fmt.Sprintf("%s/result%d.objinv.%s", key, i, c.name()), c.Labels, g, c, ex.posOf(fr.retInstr))
 			} else {
 				st.assume(g)
+			}
+		}
+	}
+}
+
+// objinvStability: an object invariant is assumed at every method entry and proved only where
+// objects are created, so every plain field it reads must be write-once: init_only (C15 proves no
+// write after the object is shared), or a map whose contents are guarded by a lock (the clause then
+// has to be a lock invariant as well) - anything else is a hole in the proof architecture and is
+// reported as a contract error (exit 2), never as a violation.
+func (ex *Exec) objinvStability() {
+	for tk, cs := range ex.specs.ObjInvs {
+		nt := ex.namedType(tk)
+		if nt == nil {
+			continue
+		}
+		for _, c := range cs {
+			st := &State{ex: ex, heap: map[string]string{}, cnt: map[string]string{}, published: map[string]bool{}}
+			fr := &Frame{key: "objinv " + tk, names: map[string]Val{}}
+			self := ex.mkVal(types.NewPointer(nt), st.fresh("self", "Int"))
+			ev := &evalCtx{ex: ex, st: st, fr: fr, extra: map[string]Val{"self": self}, reads: map[string]bool{}}
+			func() {
+				defer func() { recover() }()
+				ev.eval(c.Expr)
+			}()
+			for arr := range ev.reads {
+				if !strings.HasPrefix(arr, "H.") {
+					continue // map contents (covered by lock invariants / A-registration), ghost arrays
+				}
+				fs, key := ex.fieldSpecFor(arr)
+				if !ex.inScopeField(key) {
+					continue
+				}
+				if fs != nil && fs.Disc == "used_only_in" {
+					fs = ex.defaultDiscipline(key)
+				}
+				if fs == nil {
+					ex.specError("%s:%d: object invariant of %s reads field %s which has no discipline", c.File, c.Line, tk, key)
+					continue
+				}
+				if !strings.HasPrefix(fs.Disc, "init_only") && fs.Disc != "unshared" {
+					ex.specError("%s:%d: object invariant of %s reads field %s whose discipline is %q (not write-once): the invariant is not stable", c.File, c.Line, tk, key, fs.Disc)
+				}
 			}
 		}
 	}
